@@ -5,10 +5,12 @@ CONFIG = {
     "lean": ["VProps.C04"],
     "sources": ["VProps/C04.lean", "VProps/C05.lean", "VModel/EventParse.lean", "VModel/EventSpec.lean", "VModel/Redact.lean",
                 "VModel/Hash.lean", "VProofs/EventParse.lean", "VProofs/RedactLookup.lean", "VProofs/RedactCore.lean",
-                "VProofs/RedactMaps.lean", "VProofs/RedactMain.lean", "VProofs/RedactExact.lean"],
+                "VProofs/RedactMaps.lean", "VProofs/RedactMain.lean", "VProofs/RedactExact.lean", "VProofs/RedactCongr.lean",
+                "VProofs/EventTamper.lean"],
     "theorems": [
         "V.C04.table_facts", "V.C04.accessors_only_see_json", "V.C04.hash_match_intact", "V.C04.hash_mismatch_redacted",
         "V.C04.tamper_redactable_same_identity_partial",
+        "V.C04.identity_of_accepted", "V.C04.tamper_redactable_same_identity", "V.C04.same_redaction_same_identity_intact",
     ],
     "rule": "events built with EventBuilder.Build (real ed25519; 14 event types incl. every protected one, state key absent / '' / "
             "user / other, 0-4 prev and auth references, IntSafe contents, depths 0..2^53-1, all 16 versions) x 27 tamperings "
@@ -36,8 +38,16 @@ CONFIG = {
         "case variants of keys stripped on receipt (\"Unsigned\", \"Age_ts\", ...) survive the stripping and are visible through "
         "Unsigned() / in JSON(); they are covered by the content hash (only the sender can add them) and disappear on redaction; "
         "the specification stream treats events with a case variant of a struct field as outside the quantifier",
-        "tamper_redactable_same_identity_partial: stated for redactions without an event_id member (events without a case variant of "
-        "event_id); the Event_id path (reset of the decoded ID, commit c0dfbd8) is covered by correspondence only",
+        "tamper_redactable_same_identity (full strength for the property's quantifier): the two stripped events' redactions agree up to "
+        "the event_id member the keep struct re-emits for a case variant such as Event_id (hsame: equal after deleteFirst event_id), so the "
+        "Event_id path of commit c0dfbd8 (reset of the decoded ID, key dropped from the redacted JSON, re-parse) is now proved, not only "
+        "sampled. Side condition hc1/hc2, explicit and shown satisfiable: an event returned NOT redacted (hash matched) has no event_id in "
+        "its redaction, i.e. carries no case variant of event_id - true of every Build output and of every hash-preserving copy. It cannot "
+        "be dropped: a sender-made event {Event_id:\"$x\", valid hash} and its content-tampered copy have the same redaction but different "
+        "event IDs (the intact event's reference hash covers the re-emitted event_id, the re-parsed redacted copy's does not) - kernel-"
+        "evaluated counter-example in VProps/C04.lean, replayed on the Go code; root: case-insensitive key matching of the redaction keep "
+        "struct (C05's domain restriction). same_redaction_same_identity_intact covers the remaining true case (both intact, same "
+        "redaction); tamper_redactable_same_identity_partial is kept as a corollary",
         "hash_mismatch_redacted characterises JSON() (= canonical encoding of the redaction) and, via accessors_only_see_json, the "
         "accessors; that the redaction has only kept keys is C05.redact_exact (well-formed events)",
     ],
